@@ -107,6 +107,11 @@ class Tr:
             return "(" + f" {op} ".join(self.cond(v) for v in n.values) + ")"
         if isinstance(n, ast.UnaryOp) and isinstance(n.op, ast.Not):
             return f"(!{self.cond(n.operand)})"
+        if isinstance(n, ast.Call) and isinstance(n.func, ast.Attribute) and len(n.args) == 1 and not n.keywords:
+            # explicit comparison methods: `a.__lt__(b)` is `a < b`
+            op = {"__lt__": "<", "__le__": "≤", "__gt__": ">", "__ge__": "≥", "__eq__": "=", "__ne__": "≠"}.get(n.func.attr)
+            if op is not None:
+                return f"(decide ({self.expr(n.func.value)} {op} {self.expr(n.args[0])}))"
         if isinstance(n, ast.Constant) and isinstance(n.value, bool):
             return "true" if n.value else "false"
         raise TranslationError(f"condition {key}")
@@ -202,6 +207,21 @@ class Src:
             raise TranslationError(f"no expression containing {contains!r} in {qual}")
         return hits[k]
 
+    def returns(self, qual):
+        """values of the `return` statements of function `qual`, in source order (nested functions excluded)"""
+        f = self.func(qual)
+        out = []
+
+        def walk(node):
+            for ch in ast.iter_child_nodes(node):
+                if isinstance(ch, (ast.FunctionDef, ast.Lambda, ast.ClassDef)):
+                    continue
+                if isinstance(ch, ast.Return) and ch.value is not None:
+                    out.append(ch.value)
+                walk(ch)
+        walk(f)
+        return out
+
     def module_lambda(self, var):
         for n in self.tree.body:
             if isinstance(n, ast.Assign) and ast.unparse(n.targets[0]) == var:
@@ -275,6 +295,19 @@ def assign(path, qual, target, env, k=0, bools=(), augment=None, elt=False):
 def test(path, qual, contains, env, k=0, bools=()):
     def go():
         return Tr(env, bools).cond(Src(path).test(qual, contains, k))
+    return go
+
+
+def ret(path, qual, k, env, n_returns=None, bools=()):
+    """the value of the k-th `return` of `qual` as a condition; `n_returns`: the function must have exactly that many"""
+
+    def go():
+        rs = Src(path).returns(qual)
+        if n_returns is not None and len(rs) != n_returns:
+            raise TranslationError(f"{qual} has {len(rs)} return statements, {n_returns} expected")
+        if len(rs) <= k:
+            raise TranslationError(f"no return #{k} in {qual}")
+        return Tr(env, bools).cond(rs[k])
     return go
 
 
@@ -508,6 +541,16 @@ LEAVES = [
     ("C13", "appScoreKey", "(score : Rat)", "Rat", lam(TIE, "app_score_tie_breaking", {"prof.approval_score(proj)": "score"})),
     ("C13", "minCostKey", "(cost : Rat)", "Rat", lam(TIE, "min_cost_tie_breaking", {"proj.cost": "cost"})),
     ("C13", "maxCostKey", "(cost : Rat)", "Rat", lam(TIE, "max_cost_tie_breaking", {"proj.cost": "cost"})),
+    # the order and the identity of projects (what `sorted(projects)`, the pre-sort of every tie-breaking rule, and set membership use):
+    # comparing a project with a project (first return) and with a name (second return) compares the NAMES
+    ("C13", "projectLt", "(a b : Rat)", "Bool", ret(INST, "Project.__lt__", 0, {"self.name": "a", "other.name": "b"}, n_returns=2)),
+    ("C13", "projectLtName", "(a b : Rat)", "Bool", ret(INST, "Project.__lt__", 1, {"self.name": "a", "other": "b"}, n_returns=2)),
+    ("C13", "projectLe", "(a b : Rat)", "Bool", ret(INST, "Project.__le__", 0, {"self.name": "a", "other.name": "b"}, n_returns=2)),
+    ("C13", "projectLeName", "(a b : Rat)", "Bool", ret(INST, "Project.__le__", 1, {"self.name": "a", "other": "b"}, n_returns=2)),
+    ("C13", "projectEq", "(a b : Rat)", "Bool", ret(INST, "Project.__eq__", 0, {"self.name": "a", "other.name": "b"}, n_returns=3)),
+    ("C13", "projectEqName", "(a b : Rat)", "Bool", ret(INST, "Project.__eq__", 1, {"self.name": "a", "other": "b"}, n_returns=3)),
+    ("C13", "projectEqOther", "", "Bool", ret(INST, "Project.__eq__", 2, {}, n_returns=3)),
+    ("C13", "projectHash", "(h : Rat → Rat) (a : Rat)", "Rat", whole(INST, "Project.__hash__", {"hash(self.name)": "(h a)"})),
     # ---- C18: statistics
     ("C18", "meanUpdate", "(mean value n : Rat)", "Rat", assign(UTL, "mean_generator", "mean", {"mean": "mean", "value": "value", "n": "n"}, k=1)),
     ("C18", "giniFormula", "(num cum total : Rat)", "Rat",
